@@ -123,6 +123,36 @@ def probe_lines(text):
     return probes
 
 
+
+def _memo_key(kind, text):
+    import hashlib
+    import run as driver
+    return kind + '-' + hashlib.sha256((text + '\0' + driver._verus_id()).encode()).hexdigest()
+
+
+def _memo_get(key):
+    import json
+    import run as driver
+    if os.environ.get('VERIF_VX_NOCACHE') == '1':
+        return None
+    f = os.path.join(driver.BUILD, 'vx-cache', key + '.json')
+    try:
+        return json.load(open(f))
+    except Exception:
+        return None
+
+
+def _memo_put(key, r):
+    import json
+    import run as driver
+    d = os.path.join(driver.BUILD, 'vx-cache')
+    os.makedirs(d, exist_ok=True)
+    try:
+        json.dump(r, open(os.path.join(d, key + '.json'), 'w'))
+    except Exception:
+        pass
+
+
 def run_for(prop, tier, units, outdir, run_unit_text):
     import run as driver
     results = []
@@ -140,6 +170,13 @@ def run_for(prop, tier, units, outdir, run_unit_text):
         path = os.path.join(outdir, fname)
         with open(path, 'w') as f:
             f.write(probed)
+        # memo (same idea as the verifier memo of run.py): a probe / canary result is a function of the generated text and the verifier
+        pkey = _memo_key('probe', probed)
+        hitm = _memo_get(pkey)
+        if hitm is not None:
+            hitm['memoized'] = 'byte-identical probed text verified earlier in this build directory'
+            results.append(hitm)
+            continue
         js, diags, raw, wall, cmd = driver.run_verus(path, extra=['--multiple-errors', '0'])
         hit = set()
         tool = []
@@ -163,6 +200,7 @@ def run_for(prop, tier, units, outdir, run_unit_text):
             r.update(status='inconclusive', reason='VACUITY: `assert(false)` at the start of %s verified (contradictory precondition or assumption)' % ', '.join(missed[:6]))
         else:
             r.update(status='ok', obligations=0, discharged=0)
+            _memo_put(pkey, r)
         results.append(r)
     if tier == 'thorough':
         done = set(units)
@@ -179,12 +217,21 @@ def run_for(prop, tier, units, outdir, run_unit_text):
                 results.append({'name': name, 'status': 'inconclusive', 'reason': 'canary pattern no longer matches the extracted text: %s' % rg[:60]})
                 continue
             tag = 'canary%d' % (abs(hash((unit, mode, rg))) % 100000)
+            ckey = _memo_key('canary', mutated)
+            hitm = _memo_get(ckey)
+            if hitm is not None:
+                hitm['name'] = name
+                hitm['memoized'] = 'byte-identical mutant verified earlier in this build directory'
+                results.append(hitm)
+                continue
             r = run_unit_text(unit, mode, mutated, linemap, gen, outdir, tag)
             failed_fns = set(f.get('function') for f in r['failures'])
             if fn in failed_fns:
                 results.append({'name': name, 'status': 'ok', 'killed_by': sorted(failed_fns)[:4]})
+                _memo_put(ckey, results[-1])
             elif r['failures']:
                 results.append({'name': name, 'status': 'ok', 'killed_by': sorted(failed_fns)[:4], 'note': 'killed in a different function than expected'})
+                _memo_put(ckey, results[-1])
             else:
                 results.append({'name': name, 'status': 'inconclusive', 'reason': 'canary mutant SURVIVED (%s): the contracts do not pin this behaviour' % (r.get('tool_errors') or 'verified')})
     return results
